@@ -260,6 +260,7 @@ func (r *Report) Finish(verifDir string, findings []Finding, quiet bool) int {
 		"known_findings":      len(knownHits),
 		"packages_loaded":     len(r.P.Pkgs),
 		"module_functions":    len(r.P.ModFuncs),
+		"functions_that_recover": r.P.Recovering,
 		"checker_cmd":         fmt.Sprintf("./check %s %s", r.Property, r.Tier),
 		"trusted_base":        r.Trusted,
 	}
